@@ -246,7 +246,14 @@ impl<'a> tracing_subscriber::fmt::writer::MakeWriter<'a> for RollingFileAppender
             // Did we get the right to lock the file? If not, another thread
             // did it and we can just make a writer.
             if self.state.advance_date(now, current_time) {
-                self.state.refresh_writer(now, &mut self.writer.write());
+                let mut writer = self.writer.write();
+                // While this thread waited for the lock, a thread that saw a
+                // later time may have rotated again and already installed
+                // its file. Installing ours now would put an older period's
+                // file back in place until the next boundary.
+                if self.state.is_latest_rotation(now) {
+                    self.state.refresh_writer(now, &mut writer);
+                }
             }
         }
         RollingWriter(self.writer.read())
@@ -671,6 +678,18 @@ impl Inner {
         }
 
         None
+    }
+
+    /// Returns `true` if the rotation committed by `advance_date(now, ..)` is
+    /// still the most recent one, i.e. no other thread has advanced the
+    /// rollover time since.
+    fn is_latest_rotation(&self, now: OffsetDateTime) -> bool {
+        let next_date = self
+            .rotation
+            .next_date(&now)
+            .map(|date| date.unix_timestamp() as usize)
+            .unwrap_or(0);
+        self.next_date.load(Ordering::Acquire) == next_date
     }
 
     fn advance_date(&self, now: OffsetDateTime, current: usize) -> bool {
